@@ -35,6 +35,7 @@ class Run:
         self.descs = []
         self.streams = {}
         self.nintr = 0
+        self.bundling = False
 
     def s(self, name):
         if name not in self.streams:
@@ -69,6 +70,7 @@ def run(obs, rec):
 
     def weaken():
         for r in open_runs:
+            r.bundling = None           # a rewind cancels the open bundle iff something is replayed: unknown
             for name, st in r.streams.items():
                 if name != INTR:
                     st.ex = False
@@ -220,6 +222,19 @@ def run(obs, rec):
                 else:
                     u = keys.get(key)
                     tgt = find(u) if u is not None else None
+                    # the message must meet the bundle state of ITS run: create opens a bundle, save/drop need one
+                    ims = is_exn and resp[1] == "IllegalMessageSequence"
+                    if tgt is not None and cmd in ("create", "save", "drop"):
+                        want_ims = tgt.bundling if cmd == "create" else not tgt.bundling
+                        if tgt.bundling is not None and ims != want_ims and not (is_exn and not ims):
+                            v("keys", "%s with run key %r %s although run %s %s a bundle open" % (
+                                cmd, key, "was refused" if ims else "was accepted", u, "has" if tgt.bundling else "has not"))
+                        if not is_exn:
+                            tgt.bundling = cmd == "create"
+                        elif ims and tgt.bundling is None:
+                            tgt.bundling = cmd == "create"      # refused create: a bundle is open; refused save/drop: none is
+                        elif cmd == "save" and not ims:
+                            tgt.bundling = False
                     for d in cur_docs:
                         if len(d) > 2 and d[2] != u:
                             v("keys", "%s with run key %r emitted a document of run %s (the key's run is %s)" % (cmd, key, d[2], u))
